@@ -8,7 +8,7 @@
    every run); inet_pton/inet_ntop/uuid_parse/uuid_unparse are universally quantified with named
    hypotheses.                                                                                  *)
 From OlaBase Require Import Bytes.
-From C20 Require Import Libc Spec Model Ipv6 ProofsDigits ProofsInt ProofsHex ProofsText ProofsIpv6 ProofsIpv6v4 ProofsExt ProofsPton4 ProofsUuid ProofsIpv6Full ProofsIpv6Comp.
+From C20 Require Import Libc Spec Model Ipv6 ProofsDigits ProofsInt ProofsHex ProofsText ProofsIpv6 ProofsIpv6v4 ProofsExt ProofsPton4 ProofsUuid ProofsIpv6Full ProofsIpv6Comp ProofsIpv6V4s.
 From C20 Require Gen.
 Local Open Scope N_scope.
 
@@ -571,6 +571,30 @@ Proof.
 Qed.
 Print Assumptions c20_ipv6_compressed_exact.
 
+(* inet_pton(AF_INET6) on the glibc model, texts with an embedded IPv4 suffix: an accepted text that
+   contains a '.' is  P ++ "a.b.c.d"  where the canonical dotted quad (octets <= 255, inet_ntop4's
+   output) is the LAST token (P is empty or ends with ':' and has no '.'), and it is accepted with
+   exactly the value of the '.'-free text  P ++ hex(a*256+b) ":" hex(c*256+d)  - whose denotation
+   is given by c20_ipv6_compressed_exact; conversely every such pair of texts parses alike.       *)
+Theorem c20_ipv6_embedded_ipv4_exact :
+  (forall t ws, In 46 t -> inet_pton6 t = Some ws ->
+     exists P a b c d, t = P ++ inet_ntop4 [a; b; c; d] /\ ~ In 46 P /\ (P = [] \/ exists P0, P = P0 ++ [58]) /\
+       (a <= 255 /\ b <= 255 /\ c <= 255 /\ d <= 255) /\
+       inet_pton6 (P ++ to_hex (a * 256 + b) ++ 58 :: to_hex (c * 256 + d)) = Some ws) /\
+  (forall a b c d P, a <= 255 -> b <= 255 -> c <= 255 -> d <= 255 -> ~ In 46 P ->
+     (P = [] \/ exists P0, P = P0 ++ [58]) ->
+     inet_pton6 (P ++ inet_ntop4 [a; b; c; d]) = inet_pton6 (P ++ to_hex (a * 256 + b) ++ 58 :: to_hex (c * 256 + d))).
+Proof. split; [exact embedded_sound|exact transfer_top]. Qed.
+Print Assumptions c20_ipv6_embedded_ipv4_exact.
+
+(* All three forms together: inet_pton6 accepts t with value ws EXACTLY when t - after replacing
+   a final dotted-quad token by the two hex groups it stands for - is the full form or the "::"
+   form denoting ws.                                                                             *)
+Theorem c20_ipv6_exact : forall t ws, inet_pton6 t = Some ws <->
+  exists t', v4_norm t t' /\ (full_form t' ws \/ compressed_form t' ws).
+Proof. exact ipv6_exact. Qed.
+Print Assumptions c20_ipv6_exact.
+
 (* ---- non-vacuity ------------------------------------------------------------------------------- *)
 (* the hypotheses on the external functions are jointly satisfiable ... *)
 Example ex_net_hyps_sat :
@@ -657,4 +681,10 @@ Example ex_ipv6_compressed :
   inet_pton6 [102; 101; 56; 48; 58; 58; 49; 58; 48; 50] = Some [65152; 0; 0; 0; 0; 0; 1; 2] /\
   inet_pton6 [58; 58] = Some [0; 0; 0; 0; 0; 0; 0; 0] /\ inet_pton6 [49; 58; 58] = Some [1; 0; 0; 0; 0; 0; 0; 0] /\
   inet_pton6 [49; 58; 50; 58; 51; 58; 52; 58; 53; 58; 54; 58; 55; 58; 58; 56] = None.
+Proof. vm_compute. repeat split; reflexivity. Qed.
+
+Example ex_ipv6_embedded :
+  inet_pton6 [58; 58; 102; 102; 102; 102; 58; 49; 46; 50; 46; 51; 46; 52] = Some [0; 0; 0; 0; 0; 65535; 258; 772] /\
+  inet_pton6 [49; 58; 50; 58; 51; 58; 52; 58; 53; 58; 54; 58; 49; 46; 50; 46; 51; 46; 52] = Some [1; 2; 3; 4; 5; 6; 258; 772] /\
+  inet_pton6 [58; 58; 48; 49; 46; 50; 46; 51; 46; 52] = None.
 Proof. vm_compute. repeat split; reflexivity. Qed.
